@@ -14,9 +14,9 @@
 //!     1. `Ax[In->Out](x, y, None)`
 //!     2. `Ax[In->Out](x, y, Some(&mut None))`        (empty slot, gets filled)
 //!     3. `Ax[In->Out](x', y', Some(&mut slot))`      (slot filled by step 2, other value instance)
-//!     4. `L[Out](output of 3, else of 1)`            (the further step, really proved)
+//!     4. `L[Out](output of 1)`                       (the further step, really proved)
 //!     thorough only:
-//!     5. `L[Out](output of 1)`
+//!     5. `L[Out](output of 3)`
 //!     6. `A[Out](output of 1, output of 2)`          (further aggregation under `Out`)
 //!     7. `Ax[Out->In](output of 1, output of 2)`     (crossing back over the boundary)
 //!
@@ -464,14 +464,18 @@ pub struct CaseSpec {
     pub x: String,
     pub y: String,
     pub p: usize,
+    /// only step 1 (the uncached boundary call, judged incl. the in-circuit chain check): used by
+    /// the quick tier for the expensive depth-2 pair into a hiding output; the thorough tier runs
+    /// the full history of every pair
+    pub lite: bool,
 }
 
 impl CaseSpec {
     pub fn label(&self) -> String {
-        format!("{}:Ax[P{}]({}, {})", self.dir, self.p, self.x, self.y)
+        format!("{}:Ax[P{}]({}, {}){}", self.dir, self.p, self.x, self.y, if self.lite { " [step 1 only]" } else { "" })
     }
     pub fn to_json(&self) -> Value {
-        json!({"dir": self.dir, "x": self.x, "y": self.y, "p": self.p})
+        json!({"dir": self.dir, "x": self.x, "y": self.y, "p": self.p, "lite": self.lite})
     }
 }
 
@@ -481,6 +485,8 @@ pub struct CaseRes {
     pub steps: Vec<StepRes>,
     /// verdict tags of steps 1/2/3 if they disagree on Good / not Good
     pub cached_mismatch: Option<String>,
+    /// the budget ran out inside the history: its remaining steps were not executed
+    pub truncated: bool,
 }
 
 fn seed_of(label: &str, seed: u64) -> u64 {
@@ -569,7 +575,23 @@ children_fn!(children_zk, zk, ZkCfg);
 /// One case = one history over the boundary `In -> Out` (see the module doc).
 macro_rules! case_fn {
     ($f:ident, $in:ty, $out:ty, $om:ident, $im:ident, $fwd:ident, $back:ident) => {
-        pub fn $f(env: &Env, seed: u64, spec: &CaseSpec, kids: &[Child<$in>], thorough: bool) -> Result<CaseRes, String> {
+        pub fn $f(
+            env: &Env,
+            seed: u64,
+            spec: &CaseSpec,
+            kids: &[Child<$in>],
+            thorough: bool,
+            oot: &(dyn Fn() -> bool + Sync),
+        ) -> Result<CaseRes, String> {
+            let truncated = std::sync::atomic::AtomicBool::new(false);
+            // a slow machine shortens histories instead of overrunning the budget
+            let late = || {
+                let l = oot();
+                if l {
+                    truncated.store(true, std::sync::atomic::Ordering::Relaxed);
+                }
+                l
+            };
             let find = |l: &str| kids.iter().find(|c| c.label == l).ok_or_else(|| format!("no child {l}"));
             let (cx, cy) = (find(&spec.x)?, find(&spec.y)?);
             let p = spec.p;
@@ -615,14 +637,19 @@ macro_rules! case_fn {
                 let r = $fwd(env, &in_cfg, &out_cfg, x0, y0, p, None);
                 let (v_none, o_none, cnt) = $om::judge(env, &out_cfg, p, r);
                 st.push(step("aggregation_cross:no_cache", format!("{ax}; cache=none)"), v_none.clone(), t0, cnt, None));
-                // 5. (thorough) the further step over the uncached output
-                let mut st5 = vec![];
-                if let (true, Some(o)) = (thorough, &o_none) {
-                    st5.push(further_l(&out_cfg, o, "none"));
+                // 4. the further step over the uncached output
+                let mut st4 = vec![];
+                if let (false, Some(o)) = (spec.lite, &o_none) {
+                    if !late() {
+                        st4.push(further_l(&out_cfg, o, "none"));
+                    }
                 }
-                (st, st5, v_none, o_none)
+                (st, st4, v_none, o_none)
             };
             let job_b = || {
+                if spec.lite {
+                    return (vec![], None, None, None);
+                }
                 let (in_cfg, out_cfg) = cfgs("b");
                 let mut st = vec![];
                 // 2. empty slot
@@ -634,7 +661,7 @@ macro_rules! case_fn {
                 // 3. the slot step 2 filled, on the other value instances (same circuit: the shape decides it)
                 let mut v_hit = None;
                 let mut o_hit = None;
-                if let Some(before) = slot.as_ref().map(|c| Rc::clone(&c.circuit_prover_data)) {
+                if let Some(before) = slot.as_ref().map(|c| Rc::clone(&c.circuit_prover_data)).filter(|_| !late()) {
                     let t0 = Instant::now();
                     let r = $fwd(env, &in_cfg, &out_cfg, x1, y1, p, Some(&mut slot));
                     let ok = matches!(r, Ok(Ok(_)));
@@ -653,20 +680,20 @@ macro_rules! case_fn {
                     o_hit = o;
                 }
                 drop(slot);
-                // 4. the further step over the output made with the cached data (else: of step 2)
-                match (&o_hit, &o_fill) {
-                    (Some(o), _) => st.push(further_l(&out_cfg, o, "slot filled by the same call")),
-                    (None, Some(o)) => st.push(further_l(&out_cfg, o, "empty slot")),
-                    _ => {}
+                // 5. (thorough) the further step over the output made with the cached data
+                if let (true, Some(o)) = (thorough, &o_hit) {
+                    if !late() {
+                        st.push(further_l(&out_cfg, o, "slot filled by the same call"));
+                    }
                 }
-                (st, v_fill, o_fill, v_hit)
+                (st, Some(v_fill), o_fill, v_hit)
             };
-            let ((st1, st5, v_none, o_none), (st234, v_fill, o_fill, v_hit)) = vpcore::rayon::join(job_a, job_b);
+            let ((st1, st4, v_none, o_none), (st235, v_fill, o_fill, v_hit)) = vpcore::rayon::join(job_a, job_b);
             let mut steps: Vec<StepRes> = st1;
-            steps.extend(st234);
-            steps.extend(st5);
-            let mut tags = vec![v_none.tag(), v_fill.tag()];
-            if let Some(v) = &v_hit {
+            steps.extend(st235);
+            steps.extend(st4);
+            let mut tags = vec![v_none.tag()];
+            for v in [&v_fill, &v_hit].into_iter().flatten() {
                 tags.push(v.tag());
             }
             let cached_mismatch = if tags.iter().any(|t| (*t == "ok_verifies_chains") != (tags[0] == "ok_verifies_chains")) {
@@ -674,7 +701,7 @@ macro_rules! case_fn {
             } else {
                 None
             };
-            if thorough {
+            if thorough && !late() {
                 if let (Some(a), Some(b)) = (&o_none, &o_fill) {
                     let (in_cfg, out_cfg) = cfgs("c");
                     let (s6, s7) = vpcore::rayon::join(
@@ -700,7 +727,8 @@ macro_rules! case_fn {
                 }
             }
             let size = 2 * (cx.level + cy.level) + p;
-            Ok(CaseRes { spec: spec.clone(), size, steps, cached_mismatch })
+            let truncated = truncated.load(std::sync::atomic::Ordering::Relaxed);
+            Ok(CaseRes { spec: spec.clone(), size, steps, cached_mismatch, truncated })
         }
     };
 }
@@ -713,19 +741,21 @@ case_fn!(case_plain_plain, Cfg, Cfg, plain, plain, x_plain_plain, x_plain_plain)
 pub const DIRS: [&str; 4] = ["zk_to_plain", "plain_to_zk", "zk_to_zk", "plain_to_plain"];
 
 /// The cases of a tier. `quick`: hiding->plain over 4 ordered pairs and plain->hiding over 3, both
-/// reaching depth 2, and the hiding->hiding control on the base pair, params P0. `thorough`: all ordered pairs of the six
+/// reaching depth 2 (the depth-2 pair into a hiding output with step 1 only: a hiding layer proof
+/// costs 4-7 s), and the hiding->hiding control on the base pair, params P0. `thorough`: all ordered pairs of the six
 /// children, the three directions with a hiding side under P0 (and the diagonal under P1), and
 /// the plain->plain control on the diagonal.
 pub fn cases(thorough: bool) -> Vec<CaseSpec> {
     let mut v = vec![];
-    let mk = |dir: &'static str, x: &str, y: &str, p: usize| CaseSpec { dir, x: x.to_string(), y: y.to_string(), p };
+    let mk = |dir: &'static str, x: &str, y: &str, p: usize| CaseSpec { dir, x: x.to_string(), y: y.to_string(), p, lite: false };
     if !thorough {
         for (x, y) in [("B0", "B0"), ("U0", "B0"), ("A(B0,B0)", "A(B0,B0)"), ("L(B0)", "A(B0,B0)")] {
             v.push(mk("zk_to_plain", x, y, 0));
         }
-        for (x, y) in [("B0", "B0"), ("U0", "B0"), ("A(B0,B0)", "L(B0)")] {
+        for (x, y) in [("B0", "B0"), ("U0", "B0")] {
             v.push(mk("plain_to_zk", x, y, 0));
         }
+        v.push(CaseSpec { lite: true, ..mk("plain_to_zk", "A(B0,B0)", "L(B0)", 0) });
         v.push(mk("zk_to_zk", "B0", "B0", 0));
     } else {
         let kids = ["B0", "U0", "L(B0)", "A(B0,B0)", "L(U0)", "A(U0,B0)"];
@@ -794,13 +824,13 @@ pub fn run(env: &Env, seed: u64, specs: &[CaseSpec], thorough: bool, out_of_time
             };
             if !has(&s.x) || !has(&s.y) {
                 // a child could not be produced: already reported through its own step
-                return (i, Some(Ok(CaseRes { spec: s.clone(), size: 0, steps: vec![], cached_mismatch: None })));
+                return (i, Some(Ok(CaseRes { spec: s.clone(), size: 0, steps: vec![], cached_mismatch: None, truncated: false })));
             }
             let r = match s.dir {
-                "zk_to_plain" => case_zk_plain(env, seed, s, &kids_z, thorough),
-                "plain_to_zk" => case_plain_zk(env, seed, s, &kids_p, thorough),
-                "zk_to_zk" => case_zk_zk(env, seed, s, &kids_z, thorough),
-                "plain_to_plain" => case_plain_plain(env, seed, s, &kids_p, thorough),
+                "zk_to_plain" => case_zk_plain(env, seed, s, &kids_z, thorough, out_of_time),
+                "plain_to_zk" => case_plain_zk(env, seed, s, &kids_p, thorough, out_of_time),
+                "zk_to_zk" => case_zk_zk(env, seed, s, &kids_z, thorough, out_of_time),
+                "plain_to_plain" => case_plain_plain(env, seed, s, &kids_p, thorough, out_of_time),
                 d => Err(format!("bad direction {d}")),
             };
             (i, Some(r))
@@ -815,7 +845,13 @@ pub fn run(env: &Env, seed: u64, specs: &[CaseSpec], thorough: bool, out_of_time
     for r in by_idx {
         match r {
             None => skipped += 1,
-            Some(r) => cases.push(r?),
+            Some(r) => {
+                let c = r?;
+                if c.truncated {
+                    skipped += 1;
+                }
+                cases.push(c);
+            }
         }
     }
     Ok(BoundaryRun { child_steps, cases, skipped_for_budget: skipped, wall_s: t0.elapsed().as_secs_f64() })
@@ -988,15 +1024,15 @@ pub fn evidence(run: &BoundaryRun, specs: &[CaseSpec], thorough: bool) -> (Value
         + per_dir.len() as u64;
     let states = inits + transitions;
     let v = json!({
-        "what": "cross aggregation entry point with input/output configs of different ZK-ness (hiding <-> plain), plus the hiding->hiding control; children = base proofs and depth-1 L/A outputs proved under the input config; per case: Ax(none) ; Ax(empty slot) ; Ax(filled slot) ; L[out](output) (+ thorough: L on the uncached output, A[out], Ax back over the boundary)",
+        "what": "cross aggregation entry point with input/output configs of different ZK-ness (hiding <-> plain), plus the hiding->hiding control; children = base proofs and depth-1 L/A outputs proved under the input config; per case: Ax(none) ; Ax(empty slot) ; Ax(filled slot) ; L[out](uncached output) (+ thorough: L[out](output made with the cached data), A[out](o,o'), Ax[out->in](o,o') back over the boundary)",
         "tier_alphabet": if thorough {
             "children {B0,U0,L(B0),A(B0,B0),L(U0),A(U0,B0)}; all 36 ordered pairs x {zk->plain, plain->zk, zk->zk} under P0, the 6 diagonal pairs under P1, plain->plain control on the diagonal; 7 steps per case"
         } else {
-            "children {B0,U0,L(B0),A(B0,B0)}; zk->plain: (B0,B0),(U0,B0),(A,A),(L,A); plain->zk: (B0,B0),(U0,B0),(A,L); zk->zk: (B0,B0); params P0; 4 steps per case"
+            "children {B0,U0,L(B0),A(B0,B0)}; zk->plain: (B0,B0),(U0,B0),(A,A),(L,A); plain->zk: (B0,B0),(U0,B0),(A,L)[step 1 only]; zk->zk: (B0,B0); params P0; 4 steps per case"
         },
         "cases_planned": specs.len(),
         "cases_executed": run.cases.iter().filter(|c| !c.steps.is_empty()).count(),
-        "cases_skipped_for_budget": run.skipped_for_budget,
+        "cases_skipped_or_truncated_for_budget": run.skipped_for_budget,
         "cases_over_a_child_that_could_not_be_produced": run.cases.iter().filter(|c| c.steps.is_empty()).count(),
         "cases_per_direction": per_dir.iter().map(|(k, v)| (k.clone(), json!({"cases": v.0, "steps": v.1}))).collect::<serde_json::Map<_, _>>(),
         "children_production_steps": run.child_steps.len(),
